@@ -521,6 +521,14 @@ class ConfigParser(object):
     potential = curr_node['potential_label']
     # ... extract parameters
     parameters = [p for p in curr_node['potential_parameters']]
+    for p in parameters:
+      # A literal outside the range of floating point numbers is read as inf (1e400), or cannot be converted at all
+      try:
+        finite = not math.isinf(float(p))
+      except OverflowError:
+        finite = False
+      if not finite:
+        raise ConfigParserException("A parameter of '{}' is too large to be represented as a number.".format(potential))
     # ... are there any more (next)
     n = self._descend_tree(sibling_iterator)
     # ... build tuple
